@@ -82,6 +82,16 @@ class Closure:
         return "<closure %s>" % self.qualname
 
 
+class BoundClosure:
+    """a real method interpreted from its source with `self` bound to a stub"""
+
+    def __init__(self, clo, this):
+        self.clo, self.this = clo, this
+
+    def __call__(self, *args, **kwargs):
+        return self.clo.interp.call_closure(self.clo, [self.this] + list(args), dict(kwargs))
+
+
 class Method:
     """bound method of a modelled value"""
 
@@ -109,7 +119,7 @@ def dotted(node):
 def deep_concrete(v, depth=0):
     if depth > 6:
         return False
-    if isinstance(v, (Sym, ModelValue, Obj, Extern, Closure, MapBox, ExcVal, Method)):
+    if isinstance(v, (Sym, ModelValue, Obj, Extern, Closure, BoundClosure, MapBox, ExcVal, Method)):
         return False
     if isinstance(v, (list, tuple, set, frozenset)):
         return all(deep_concrete(x, depth + 1) for x in v)
@@ -169,7 +179,7 @@ class Interp:
             return Or(*[Sym(g) if isinstance(g, z3.ExprRef) else g for g, _ in v.items]) if v.items else False
         if isinstance(v, SymArr):
             return compare('>', v.length, 0)
-        if isinstance(v, (Obj, Extern, Closure, Method, ExcVal)):
+        if isinstance(v, (Obj, Extern, Closure, BoundClosure, Method, ExcVal)):
             return True
         if isinstance(v, ModelValue) or isinstance(v, MapBox):
             raise OutsideSubset("truth of %s" % type(v).__name__)
@@ -246,12 +256,16 @@ class Interp:
             return f(*args, **kwargs)
         if isinstance(f, Closure):
             return self.call_closure(f, list(args), dict(kwargs))
+        if isinstance(f, BoundClosure):
+            return f(*args, **kwargs)
         if isinstance(f, Method):
             return self.call_method(f.obj, f.name, args, kwargs)
         if isinstance(f, type) and issubclass(f, BaseException):
             return ExcVal(f, args)
         from . import models
         m = models.BUILTINS.get(f) if _hashable(f) else None
+        if m is None and models._is_repo_deep_copy(f):
+            m = models.b_deepcopy        # experiment...deep_copy(value) is copy.deepcopy(value)
         if m is not None:
             return m(self, *args, **kwargs)
         if callable(f) and all(deep_concrete(a) for a in args) and all(deep_concrete(v) for v in kwargs.values()):
@@ -413,7 +427,7 @@ class Interp:
                     self.store(item.optional_vars, m, env)
                 continue
             if isinstance(m, Obj) and m.has_field('__enter__'):
-                v = self.call_value(m.__enter__, [], {})
+                v = self.call_value(m.field('__enter__'), [], {})
                 if item.optional_vars is not None:
                     self.store(item.optional_vars, v, env)
                 entered.append(m)
@@ -425,7 +439,7 @@ class Interp:
             suppressed = False
             for m in reversed(entered):
                 if m is not None:
-                    r = self.call_value(getattr(m, '__exit__'), [pr.exc.cls, pr.exc, None], {})
+                    r = self.call_value(m.field('__exit__'), [pr.exc.cls, pr.exc, None], {})
                     if r is True:
                         suppressed = True
             if not suppressed:
@@ -433,12 +447,12 @@ class Interp:
         except (ReturnSig, BreakSig, ContinueSig):
             for m in reversed(entered):
                 if m is not None:
-                    self.call_value(getattr(m, '__exit__'), [None, None, None], {})
+                    self.call_value(m.field('__exit__'), [None, None, None], {})
             raise
         else:
             for m in reversed(entered):
                 if m is not None:
-                    self.call_value(getattr(m, '__exit__'), [None, None, None], {})
+                    self.call_value(m.field('__exit__'), [None, None, None], {})
 
     def st_Try(self, s, env):
         try:
@@ -849,6 +863,8 @@ class Interp:
         if d is not None and d not in self.externs and (LOG_CALL.search(d) or (self.drop and self.drop(d))):
             self.dropped_calls += 1
             return None
+        if d in ('cast', 'typing.cast') and len(e.args) == 2 and d not in self.externs:
+            return self.eval(e.args[1], env)            # cast(T, x) == x  (DESIGN 3)
         f = self.eval(e.func, env)
         args = []
         for a in e.args:
